@@ -414,7 +414,7 @@ def run_case(case: dict, tmp, stop_at_first=True):
     with warnings.catch_warnings():
         warnings.simplefilter("ignore")
         root, info = gen_triangle(rng, shape)
-    names = sorted(ops())
+    names = sorted(n for n in ops() if not (case.get("no_charts") and n.startswith("plot.plot_")))
     seq = case.get("ops") or [rng.choice(names) for _ in range(case.get("length", 1))]
     cur, live = root, [root]
     trace, violations = [], []
